@@ -101,7 +101,9 @@ def cases(tier: str, seed: int) -> List[Dict[str, Any]]:
             # history on a module compiled with the LIBRARY's compile transform: a hyperparameter attribute is changed
             # after the first call; the next call honours it like eager does
             for which in ("GELU.mult", "SiLU.mult", "Softmax.mult", "Softmax.constraint", "Linear.constraint", "TransformerLayer.mhsa_tau",
-                          "TransformerLayer.mlp_tau", "MHSA.is_causal", "Dropout.p"):
+                          "TransformerLayer.mlp_tau", "MHSA.is_causal", "Dropout.p",
+                          # (frozen parameters: the compiled copy leaves them without gradient, like eager)
+                          "Linear.frozen", "MLP.frozen", "TransformerLayer.frozen"):
                 out.append({"kind": "attr_history", "which": which, "backend": be, "seed": seed})
         comps = [list(c) for c in itertools.product(UNARY, repeat=2)]
         if tier == "thorough":
@@ -385,25 +387,41 @@ def run_case(case: Dict[str, Any]) -> Dict[str, Any]:
         mk = {"GELU": lambda: uu.GELU(mult=1.0, constraint=None), "SiLU": lambda: uu.SiLU(mult=1.0, constraint=None),
               "Softmax": lambda: uu.Softmax(dim=-1, mult=1.0), "Linear": lambda: uu.Linear(8, 6),
               "TransformerLayer": lambda: uu.TransformerLayer(8, 2, 0.5, 0.7, is_causal=True),
-              "MHSA": lambda: uu.MHSA(8, 2, is_causal=False), "Dropout": lambda: uu.Dropout(p=0.0)}[cls]
-        newval = {"mult": 0.5, "constraint": None, "mhsa_tau": 0.9, "mlp_tau": 0.2, "is_causal": True, "p": 0.0}[attr]
+              "MHSA": lambda: uu.MHSA(8, 2, is_causal=False), "Dropout": lambda: uu.Dropout(p=0.0)}.get(cls)
+        mk = dict({"MLP": lambda: uu.MLP(8, 2)}, **{cls: mk}) [cls] if cls != "MLP" else (lambda: uu.MLP(8, 2))
+        if cls == "Linear" and attr == "frozen":
+            mk = lambda: uu.Linear(8, 6, bias=True)  # noqa: E731
+        newval = {"mult": 0.5, "constraint": None, "mhsa_tau": 0.9, "mlp_tau": 0.2, "is_causal": True, "p": 0.0, "frozen": None}[attr]
         if case["which"] == "Softmax.constraint":
             mk = lambda: uu.Softmax(dim=-1, mult=0.5)  # noqa: E731
         if case["which"] == "Linear.constraint":
             newval = "to_grad_input_scale"
         try:
             m = mk()
+            if attr == "frozen":
+                ps_ = list(m.parameters())
+                for p_ in ps_[: max(1, len(ps_) // 2)]:
+                    p_.requires_grad_(False)
+                with torch.no_grad():
+                    for p_ in ps_:
+                        if not bool((p_ != 0).any()):
+                            p_.normal_()
             cm = uu_compile(m)
+            if attr == "frozen":
+                flags = [(a.requires_grad, b.requires_grad) for a, b in zip(m.parameters(), cm.parameters())]
+                if any(a != b for a, b in flags):
+                    viol.append({"key": ident + "|requires_grad_differs_in_compiled_copy", "msg": f"(eager, compiled) = {flags}"})
 
             def call(mod: Any) -> Any:
                 a = x3.clone().requires_grad_(True)
-                leaves = [a] + list(mod.parameters())
+                leaves = [a] + [p_ for p_ in mod.parameters() if p_.requires_grad]
                 return run(mod, [a], leaves)
 
             y0e, g0e = call(m)
             y0c, g0c = call(cm)
             for mod in (m, cm):
-                setattr(mod, attr, newval)
+                if attr != "frozen":
+                    setattr(mod, attr, newval)
             y1e, g1e = call(m)
             y1c, g1c = call(cm)
         except Exception as e:  # noqa
@@ -413,7 +431,7 @@ def run_case(case: Dict[str, Any]) -> Dict[str, Any]:
             if not _close(yc, ye, tol) or any(not _close(a, b, tol, floor=3.0) for a, b in zip(gc, ge)):
                 viol.append({"key": ident + f"|compiled_differs|{tag}", "msg": f"{attr} -> {newval!r}"})
         changed = not _close(y1e, y0e, 1e-6) or any(not _close(a, b, 1e-6) for a, b in zip(g1e, g0e))
-        return {"violations": viol, "steps": 4, "nontrivial": changed or attr == "p", "outcome": "attr_history"}
+        return {"violations": viol, "steps": 4, "nontrivial": changed or attr in ("p", "frozen"), "outcome": "attr_history"}
 
     if case["kind"] == "fx_big":
         # plain fx tracing at sizes where forward and backward factors are far apart (fan-in / softmax width 4096)
